@@ -107,6 +107,20 @@ def run(ctx, rep, tier):
     rep.rule("QA", "axis typing over the global placer's units", 50)
     rep.rule("TW", "X/Y twins agree up to renaming", 8)
     rep.rule("XC", "global-placement callbacks observe the exported placement of the step they announce", 1)
+    rep.rule("DI", "the lower- and upper-bound placements are assigned on every path before a step blends or exports them", 2)
+    from .c07 import check_di
+    check_di(ctx, ctx.prog, rep)
+    rep.rule("CR", "the rows handed to the density grid lie inside the rows of the circuit; the blending weight is used as given", 2)
+    check_clipped_rows(ctx, rep)
+    rep.rule("FA", "the cell demands are computed by the same formula when the density model is built and when it is refreshed", 1)
+    from .common import check_sibling_cell_formula
+    _fa = [f_ for f_ in ctx.prog.func(CQ + "HierarchicalDensityPlacement::fromIspdCircuit", required=False) or []]
+    _fb = [f_ for f_ in (ctx.prog.func(CQ + "HierarchicalDensityPlacement::updateCellDemand", required=False) or []) if any("Circuit" in qt(p_) for p_ in f_.params)]
+    if len(_fa) >= 1 and len(_fb) == 1:
+        for f_ in _fa:
+            check_sibling_cell_formula(ctx, rep, "FA", f_, _fb[0], "the demand of a cell")
+    else:
+        rep.unknown("FA", None, None, "HierarchicalDensityPlacement::fromIspdCircuit / updateCellDemand(circuit)", "not found (shape changed)")
     rep.rule("CC", "cell conservation: hierarchy-only bin choice when binCells_ is rebuilt; emptied bins are refilled on every path", 5)
     check_blend(ctx, rep)
     check_export(ctx, rep)
@@ -127,6 +141,10 @@ def run(ctx, rep, tier):
                               key="%s|cross-axis %s" % (f.short, what[:50]))
         else:
             rep.holds("QA", f.decl, f, "%s is axis-consistent" % f.short)
+    from .common import crossed_axis_arguments
+    for x_, f_, t_ in crossed_axis_arguments(ctx, [g_ for g_ in prog.all_funcs(with_lambdas=True) if g_.unit.name.endswith(UNITS)]):
+        rep.violation("QA", x_, f_, "arguments crossed between the axes: %s" % t_, "the x-named argument goes to the y-named parameter and the reverse: the callee "
+                      "(an export, a callback exposure, a solver) sees the two coordinates exchanged", key="%s|x and y arguments crossed" % f_.short)
     check_twins(ctx, rep)
     check_conservation(ctx, rep)
     from .c02 import check_export_before_callback
@@ -542,7 +560,7 @@ def check_spread(ctx, rep):
     rv = rets[-1] if rets else None
     ws = [x for x in walk(f.body) if x.get("kind") == "BinaryOperator" and x.get("opcode") == "=" and canon(children(x)[0])[0] == "index"
           and canon(children(x)[0])[1] == rv]
-    if not ws or not mn or not mx:
+    if not ws:
         rep.unknown("SB", f.decl, f, "spread formula", "coordinate store not found")
     # every return hands back the spread coordinates: returning the (unclamped) targets themselves leaves a cell wherever its
     # target is, possibly outside the bin and outside the rows; only an empty input may be returned as it is
@@ -567,11 +585,24 @@ def check_spread(ctx, rep):
                               "exposed as it is (a bin holding a single cell is the common case)", key="spreadCells|targets returned unspread")
     for x in ws:
         e = canon(children(x)[1])
-        lo_id, hi_id = mn[0].get("id"), mx[0].get("id")
         pids = {q.get("id") for q in f.params}
-        atoms = {"lo": lambda c: c[0] == "var" and c[1] == lo_id, "hi": lambda c: c[0] == "var" and c[1] == hi_id,
-                 "d": lambda c: c[0] == "var" and c[1] not in pids}
-        p = poly(e, atoms)
+        if mn and mx:
+            lo_id, hi_id = mn[0].get("id"), mx[0].get("id")
+            atoms = {"lo": lambda c: c[0] == "var" and c[1] == lo_id, "hi": lambda c: c[0] == "var" and c[1] == hi_id,
+                     "d": lambda c: c[0] == "var" and c[1] not in pids}
+            p = poly(e, atoms)
+        else:
+            # the two limits travel in a small struct (`interval.minCoord`, `interval.maxCoord`): any two distinct scalar members of a
+            # parameter play the roles; the formula must still be d*B + (1-d)*A
+            lims = sorted({t for t in subterms(e) if isinstance(t, tuple) and t and t[0] == "field" and t[2][0] == "var" and t[2][1] in pids},
+                          key=lambda t: ("min" not in str(t[1]).lower(), str(t)))
+            p = None
+            if len(lims) == 2:
+                la, lb = lims
+                atoms = {"lo": lambda c, la=la: c == la, "hi": lambda c, lb=lb: c == lb, "d": lambda c: c[0] == "var" and c[1] not in pids}
+                p = poly(e, atoms)
+                if p == {("hi",): 1.0, ("d", "hi"): -1.0, ("d", "lo"): 1.0}:
+                    p = {("lo",): 1.0, ("d", "lo"): -1.0, ("d", "hi"): 1.0}
         if p == {("lo",): 1.0, ("d", "lo"): -1.0, ("d", "hi"): 1.0}:
             rep.holds("SB", x, f, "coordinate = dem*maxCoord + (1-dem)*minCoord (convex combination of the bin limits)")
         else:
@@ -603,6 +634,69 @@ def check_spread(ctx, rep):
                     rep.violation("SB", x, fn, "%s += %s accumulates demand/area in %s" % (pretty(canon(l)), pretty(canon(r))[:40], lt),
                                   "sums of areas exceed 2^31 at the supported magnitudes", key="%s|area summed in int" % fn.short)
     rep.extra["demand_accumulations_examined"] = n
+
+
+def check_clipped_rows(ctx, rep):
+    """CR. (a) DensityGrid::fromIspdCircuit hands the rough legalizer rows that are the circuit's rows shrunk by a side margin: each
+    rectangle it builds from a row lies inside that row (min >= row.min, max <= row.max on both axes, margins being non-negative) -
+    a row *shifted* by the margin makes the grid, and with it every upper-bound placement, stick out of the rows. (b) blendPlacement
+    computes (1 - w) v1 + w v2 for the weight it is given: the parameter is never reassigned (a clamp to [0, 1] silently replaces the
+    extrapolating weights the parameter check accepts)."""
+    from ..order import Facts, Prover
+    prog = ctx.prog
+    n = 0
+    for f in prog.func(CQ + "DensityGrid::fromIspdCircuit", required=False) or []:
+        if f.body is None:
+            continue
+        for x in walk(f.body):
+            if x.get("kind") != "CXXMemberCallExpr" or callee_info(x)["name"] not in ("emplace_back", "push_back") or "Rectangle" not in qt(callee_info(x)["obj"] or {}):
+                continue
+            a = [expand_locals(ctx, f, canon(t)) for t in callee_info(x)["args"]]
+            if len(a) == 1 and a[0][0] in ("construct", "initlist"):
+                a = [t for t in a[0][1:] if isinstance(t, tuple)][-4:]
+            if len(a) != 4:
+                continue
+            rows = {t[2] for e in a for t in subterms(e) if isinstance(t, tuple) and len(t) == 3 and t[0] == "field" and str(t[1]).endswith(("::minX", "::maxX", "::minY", "::maxY"))}
+            if len(rows) != 1:
+                continue
+            row = list(rows)[0]
+            n += 1
+            F = Facts()
+            for gc, val, _a, _b in (ctx.guards(f, x) or []):
+                F.add_cond(expand_locals(ctx, f, gc), val)
+            P = Prover(F, orthant=True)
+            fld = lambda nm: ("field", [str(t[1]) for e in a for t in subterms(e) if isinstance(t, tuple) and len(t) == 3 and t[0] == "field" and str(t[1]).endswith("::" + nm)][0], row) \
+                if any(isinstance(t, tuple) and len(t) == 3 and t[0] == "field" and str(t[1]).endswith("::" + nm) for e in a for t in subterms(e)) else None
+            bad = []
+            for e, nm, ge in ((a[0], "minX", True), (a[1], "maxX", False), (a[2], "minY", True), (a[3], "maxY", False)):
+                ref = fld(nm)
+                if ref is None:
+                    bad.append((nm, "does not mention the row's %s" % nm))
+                    continue
+                ok = P.prove_ge(e, ref) if ge else P.prove_ge(ref, e)
+                if not ok:
+                    cm = P.countermodel(e, ref) if ge else P.countermodel(ref, e)
+                    bad.append((nm, "%s can be %s the row's (e.g. %s)" % (pretty(e)[:30], "below" if ge else "above", ", ".join("%s=%s" % kv for kv in sorted((cm[0] if cm else {}).items())[:4]))))
+            what = "%s: rectangle built from a row of the circuit" % f.short
+            if bad:
+                rep.violation("CR", x, f, what, "is not inside that row: " + "; ".join("%s %s" % b for b in bad) + " - the density grid then extends past the rows and the "
+                              "spread coordinates of the cells in its outer bins fall outside them", key="%s|clipped row not inside the row" % f.short)
+            else:
+                rep.holds("CR", x, f, what, "lies inside the row (margins are non-negative)")
+    if n == 0:
+        rep.unknown("CR", None, None, "DensityGrid::fromIspdCircuit", "no rectangle built from a row found (shape changed)")
+    bl = [g_ for g_ in prog.all_funcs(with_lambdas=False) if g_.name == "blendPlacement" and g_.body is not None]
+    if not bl:
+        rep.unknown("CR", None, None, "blendPlacement", "not found (shape changed)")
+    from .common import var_write_nodes
+    for g_ in bl:
+        fl = [p_ for p_ in g_.params if qt(p_).replace("const ", "").strip() in ("float", "double")]
+        wr = [p_ for p_ in fl if var_write_nodes(ctx, g_, [p_.get("id")])]
+        if wr:
+            rep.violation("CR", g_.decl, g_, "blendPlacement reassigns its weight %s" % wr[0].get("name"), "the blend is no longer the one asked for: weights outside [0, 1], "
+                          "which the parameter check accepts (extrapolation), are silently replaced", key="blendPlacement|weight altered")
+        else:
+            rep.holds("CR", g_.decl, g_, "blendPlacement uses the weight it is given (parameter never reassigned)")
 
 
 def check_clamp(ctx, rep):
@@ -658,6 +752,43 @@ def check_p3(ctx, rep):
     g = cfg_of(f)
     fin = calls_to(f, CQ + "MatrixCreator::finalize")
     sft = [x for x in walk(f.body) if x.get("kind") == "CXXMemberCallExpr" and callee_info(x)["name"] == "setFromTriplets"]
+    if not sft or not fin:
+        # solve() split into private steps (assemble / run the solver / read the positions): judge the order of the calls of solve()
+        # that (transitively, within the class) reach finalize() and setFromTriplets
+        def reaches(h, name, depth=0):
+            if h.body is None or depth > 3:
+                return False
+            for y in walk(h.body):
+                if y.get("kind") == "CXXMemberCallExpr":
+                    if callee_info(y)["name"] == name:
+                        return True
+                    _c, hs = ctx.eff.resolve_callee(y)
+                    if any(h2.cls == f.cls and h2 is not h and reaches(h2, name, depth + 1) for h2 in hs):
+                        return True
+            return False
+        fin2, sft2 = [], []
+        for y in walk(f.body):
+            if y.get("kind") == "CXXMemberCallExpr":
+                _c, hs = ctx.eff.resolve_callee(y)
+                for h in hs:
+                    if h.cls == f.cls and h is not f:
+                        hg = cfg_of(h)
+                        if reaches(h, "finalize") or h.qname == CQ + "MatrixCreator::finalize":
+                            fin2.append(y)
+                        if reaches(h, "setFromTriplets"):
+                            sft2.append(y)
+        both = [y for y in fin2 if y in sft2]
+        if both and not (sft or fin):
+            # one helper does both: the order is judged inside it
+            h = ctx.eff.resolve_callee(both[0])[1][0]
+            hg = cfg_of(h)
+            fin_h = calls_to(h, CQ + "MatrixCreator::finalize")
+            sft_h = [x for x in walk(h.body) if x.get("kind") == "CXXMemberCallExpr" and callee_info(x)["name"] == "setFromTriplets"]
+            if fin_h and sft_h and all(hg.dominates(hg.node_for(fin_h[0]), hg.node_for(s_)) for s_ in sft_h):
+                rep.holds("P3", fin_h[0], h, "finalize() dominates setFromTriplets (in %s, called by solve)" % h.short)
+                return
+        fin = fin or fin2
+        sft = sft or sft2
     if not sft:
         rep.unknown("P3", f.decl, f, "matrix construction", "setFromTriplets not found")
     elif fin and all(g.dominates(g.node_for(fin[0]), g.node_for(s)) for s in sft):
